@@ -121,10 +121,47 @@ func (p *Program) computeProtected() {
 			// reader, detector, mismatch reply builder: the innermost function of that shape that does the
 			// work itself (a wrapper that merely calls another function of the same shape is a helper)
 			same := func(g *ssa.Function) bool { return resultsAre(g, isPacketPtr, isErrorType) }
+			// detector and reply builder: the innermost function that does the work itself
 			prot = p.reachesPrimitive(f, same, func(c ssa.CallInstruction) bool {
 				cf := c.Common().StaticCallee()
-				return isFuncNamed(cf, "io", "ReadFull") || isFuncNamed(cf, "errors", "As") || isFuncNamed(cf, modPath, "NewPacket")
+				return isFuncNamed(cf, "errors", "As") || isFuncNamed(cf, modPath, "NewPacket")
 			}, 4)
+			// stream reader: the outermost function of the shape that gets to io.ReadFull - a reader split into
+			// steps (strip the proxy line, read the frame, reject a bad key) is one reader, its steps are helpers
+			// (a function of the shape on another object that merely calls this object's reader is a wrapper)
+			readsFull := func(g *ssa.Function) bool {
+				otherObjectsReader := func(h *ssa.Function) bool {
+					if !same(h) {
+						return false
+					}
+					if h.Signature.Recv() == nil || g.Signature.Recv() == nil {
+						return h.Signature.Recv() != g.Signature.Recv()
+					}
+					return !types.Identical(derefT(h.Signature.Recv().Type()), derefT(g.Signature.Recv().Type()))
+				}
+				return p.reachesPrimitive(g, otherObjectsReader, func(c ssa.CallInstruction) bool {
+					return isFuncNamed(c.Common().StaticCallee(), "io", "ReadFull")
+				}, 4)
+			}
+			if readsFull(f) {
+				inner := false
+				if node := p.cgNode(f); node != nil {
+					for _, e := range node.In {
+						g := e.Caller.Func
+						if g == nil || e.Site == nil || p.isTestFile(g.Pos()) || e.Site.Common().StaticCallee() != f {
+							continue
+						}
+						// a step of another method of the same object
+						if g.Pkg == f.Pkg && same(g) && g != f && g.Signature.Recv() != nil && f.Signature.Recv() != nil &&
+							types.Identical(derefT(g.Signature.Recv().Type()), derefT(f.Signature.Recv().Type())) {
+							inner = true
+						}
+					}
+				}
+				if !inner {
+					prot = true
+				}
+			}
 		case resultsAre(f, isIntType, isErrorType) && hasParam(f, isPacketPtr):
 			same := func(g *ssa.Function) bool { return resultsAre(g, isIntType, isErrorType) && hasParam(g, isPacketPtr) }
 			prot = p.reachesPrimitive(f, same, func(c ssa.CallInstruction) bool {
@@ -135,7 +172,8 @@ func (p *Program) computeProtected() {
 			prot = true // pad function
 		}
 		// handler entry points and continuation states: (Response, Request)
-		if respI != nil && reqT != nil && sig.Params().Len() == 2 && types.Identical(sig.Params().At(0).Type(), respI) && types.Identical(sig.Params().At(1).Type(), reqT) {
+		// (a function of that parameter list that returns something - "did I answer?" - is a step of a state, not a state)
+		if respI != nil && reqT != nil && sig.Params().Len() == 2 && sig.Results().Len() == 0 && types.Identical(sig.Params().At(0).Type(), respI) && types.Identical(sig.Params().At(1).Type(), reqT) {
 			prot = true
 		}
 		// verdict functions of a handler object: methods without parameters, returning values (not just an
@@ -178,7 +216,7 @@ func (p *Program) computeProtected() {
 						// into a function: a helper
 						// (only when that site lies in a loop: objects made once per function call - the
 						// per-connection table, the stream wrapper - are addressed by the rules as calls)
-						if f.Object() != nil && !f.Object().Exported() && p.staticCallSites(f) == 1 && p.soleSiteInLoop(f) {
+						if f.Object() != nil && !f.Object().Exported() && p.staticCallSites(f) == 1 {
 							prot = false
 						}
 					}
@@ -247,9 +285,45 @@ func (p *Program) soleSiteInLoop(f *ssa.Function) bool {
 		if c == nil || e.Site == nil || p.isTestFile(c.Pos()) {
 			continue
 		}
-		return blockReachFromSelf(e.Site.Block())
+		return p.runsPerIteration(e.Site, 3)
 	}
 	return false
+}
+
+// runsPerIteration: the call site lies in a loop, or in an unexported function every call of which does.
+func (p *Program) runsPerIteration(site ssa.CallInstruction, depth int) bool {
+	if blockReachFromSelf(site.Block()) {
+		return true
+	}
+	if depth == 0 {
+		return false
+	}
+	g := site.Parent()
+	if g == nil || g.Object() == nil || g.Object().Exported() {
+		return false
+	}
+	node := p.CallGraph().Nodes[g]
+	if node == nil {
+		return false
+	}
+	n := 0
+	for _, e := range node.In {
+		c := e.Caller.Func
+		if c == nil || e.Site == nil || p.isTestFile(c.Pos()) {
+			continue
+		}
+		if e.Site.Common().StaticCallee() != g {
+			return false
+		}
+		if _, isCall := e.Site.(*ssa.Call); !isCall {
+			return false
+		}
+		if !p.runsPerIteration(e.Site, depth-1) {
+			return false
+		}
+		n++
+	}
+	return n > 0
 }
 
 // reachesPrimitive: f performs a call satisfying prim itself or through unexported callees of its package
@@ -300,6 +374,9 @@ func (p *Program) Roles() *Roles {
 	rootFns := p.FuncsIn(func(path string) bool { return path == modPath })
 	isReader := map[*ssa.Function]bool{}
 	for _, f0 := range rootFns {
+		if p.useViews && p.folded(f0) {
+			continue // a step of another function: it has no role of its own
+		}
 		f := p.view(f0)
 		if resultsAre(f0, isPacketPtr, isErrorType) && len(callsPkgFunc(f, "io", "ReadFull")) > 0 {
 			ro.Readers = append(ro.Readers, f)
